@@ -4,6 +4,7 @@ package verifharness
 
 import (
 	"fmt"
+	"sort"
 	"strings"
 	"testing"
 	"time"
@@ -60,6 +61,17 @@ func c10At(ctx sdk.Context, sec int64) sdk.Context {
 }
 
 func c10Unix(tm time.Time) int64 { return tm.Unix() - baseTime.Unix() }
+
+// the whole-percent discount of a Dutch auction's posted price against the oracle price in its record, as
+// LimitOrderBid computes it; ok = the posted price is below the oracle price
+func c10Discount(au auctypes.Auction) (sdk.Int, bool) {
+	if !au.AuctionType || au.CollateralTokenOraclePrice.IsNil() || au.CollateralTokenAuctionPrice.IsNil() ||
+		!au.CollateralTokenOraclePrice.GT(au.CollateralTokenAuctionPrice) {
+		return sdk.ZeroInt(), false
+	}
+	return au.CollateralTokenOraclePrice.Sub(au.CollateralTokenAuctionPrice).Quo(au.CollateralTokenOraclePrice).
+		Mul(sdk.NewDecFromInt(sdk.NewInt(100))).TruncateInt(), true
+}
 
 // ---------------------------------------------------------------------------------------------
 // workload 1: the price function, directly and through UpdateDutchAuction
@@ -171,10 +183,12 @@ type c10Auction struct {
 }
 
 type c10PlanOp struct {
-	kind                int // 0 bid, 1 tick, 2 start second
+	kind                int // 0 bid, 1 tick, 2 start second, 3 limit-bid deposit
 	who, class          int
 	f1, f2              int
 	dtClass, priceClass int
+	lit                 bool  // corpus cases: literal values instead of classes
+	v1, v2              int64 // lit: kind 0: amount = v1; kind 1: dt = v1, prices unchanged; kind 3: premium = v1, amount = v2
 }
 
 // everything that defines one TestC10 case
@@ -219,10 +233,12 @@ func c10Draw(r *rng) c10Case {
 	for i := range cs.plan {
 		x := r.intn(100)
 		switch {
-		case x < 55:
+		case x < 38:
 			cs.plan[i] = c10PlanOp{kind: 0, who: r.intn(3), class: r.intn(12), f1: 1 + r.intn(99), f2: 1 + r.intn(1000)}
-		case x < 90:
-			cs.plan[i] = c10PlanOp{kind: 1, dtClass: r.intn(9), priceClass: r.intn(20), f1: 70 + r.intn(60)}
+		case x < 56:
+			cs.plan[i] = c10PlanOp{kind: 3, who: r.intn(3), class: r.intn(8), f1: 1 + r.intn(99), f2: 1 + r.intn(1000)}
+		case x < 91:
+			cs.plan[i] = c10PlanOp{kind: 1, dtClass: r.intn(13), priceClass: r.intn(20), f1: 70 + r.intn(60)}
 		default:
 			cs.plan[i] = c10PlanOp{kind: 2}
 		}
@@ -240,6 +256,10 @@ func (cs c10Case) golit() string {
 	fmt.Fprintf(&sb, "kinds: %#v, twaC0: %d, twaD: %d, collUnits: %#v, crCreate: %#v, dropTo: %#v, extRatio: %#v, reserveClass: %d, plan: []c10PlanOp{",
 		cs.kinds, cs.twaC0, cs.twaD, cs.collUnits, cs.crCreate, cs.dropTo, cs.extRatio, cs.reserveClass)
 	for _, o := range cs.plan {
+		if o.lit {
+			fmt.Fprintf(&sb, "{kind: %d, who: %d, lit: true, v1: %d, v2: %d, f2: %d}, ", o.kind, o.who, o.v1, o.v2, o.f2)
+			continue
+		}
 		fmt.Fprintf(&sb, "{kind: %d, who: %d, class: %d, f1: %d, f2: %d, dtClass: %d, priceClass: %d}, ", o.kind, o.who, o.class, o.f1, o.f2, o.dtClass, o.priceClass)
 	}
 	sb.WriteString("}}")
@@ -261,6 +281,33 @@ var c10Corpus = []c10Case{
 	{p: c10Params{premium: c10Dec("1.2"), disc: c10Dec("0.7"), ki: c10Dec("0.1"), vaultPenalty: c10Dec("0.12"), extPenalty: c10Dec("0.1"), extBonus: c10Dec("0.05"), dur: 60, minUsd: 0, dc: 1000000, dd: 1000000},
 		kinds: [2]int{2, 2}, twaC0: 2000000, twaD: 1000000, collUnits: [2]int64{1000, 2500}, crCreate: [2]int64{200, 200}, dropTo: [2]int64{120, 120}, extRatio: [2]int64{60, 90}, reserveClass: 2,
 		plan: []c10PlanOp{{kind: 0, who: 0, class: 5, f1: 50, f2: 0}, {kind: 2}, {kind: 1, dtClass: 3, priceClass: 10, f1: 100}, {kind: 0, who: 1, class: 3, f1: 40, f2: 0}, {kind: 0, who: 1, class: 8, f1: 50, f2: 0}}},
+	// C10-F5 (fixed): external auction, target 1 120 000 (penalty 12 %), collateral 1 000 000, big reserve; a limit bid of
+	// 3 000 000 at discount 9 meets the block at t = 2940 s (price 0.906): the bid is cut down to 906 000, the reserve pays
+	// 214 000; the limit bid used to be charged 1 120 000 (Properties/C10.v:c10_fill_cut_down_regression)
+	{p: c10Params{premium: c10Dec("1.2"), disc: c10Dec("0.7"), ki: c10Dec("0"), vaultPenalty: c10Dec("0.12"), extPenalty: c10Dec("0.12"), extBonus: c10Dec("0"), dur: 3600, minUsd: 0, dc: 1000000, dd: 1000000},
+		kinds: [2]int{2, 2}, twaC0: 1000000, twaD: 1000000, collUnits: [2]int64{1000, 2000}, crCreate: [2]int64{200, 200}, dropTo: [2]int64{120, 120}, extRatio: [2]int64{100, 50}, reserveClass: 2,
+		plan: []c10PlanOp{{kind: 3, who: 0, lit: true, v1: 9, v2: 3000000}, {kind: 1, lit: true, v1: 2940}, {kind: 1, lit: true, v1: 1}, {kind: 1, lit: true, v1: 100}}},
+	// C10-F6 (fixed): debt 500 003, collateral 1 000 006; limit bids of 1 and 999 at discount 5 are filled in one closure at
+	// t = 2550 s (price 0.945): the second bid used to overwrite the first one's auction update; then a limit bid of the
+	// remaining debt closes the auction at discount 6 (Properties/C10.v:c10_fill_two_partials_regression)
+	{p: c10Params{premium: c10Dec("1.2"), disc: c10Dec("0.7"), ki: c10Dec("0"), vaultPenalty: c10Dec("0.12"), extPenalty: c10Dec("0"), extBonus: c10Dec("0"), dur: 3600, minUsd: 0, dc: 1000000, dd: 1000000},
+		kinds: [2]int{2, 2}, twaC0: 1000000, twaD: 1000000, collUnits: [2]int64{1000, 2000}, crCreate: [2]int64{200, 200}, dropTo: [2]int64{120, 120}, extRatio: [2]int64{50, 50}, reserveClass: 2,
+		plan: []c10PlanOp{{kind: 3, who: 0, lit: true, v1: 5, v2: 1}, {kind: 3, who: 1, lit: true, v1: 5, v2: 999}, {kind: 1, lit: true, v1: 2550},
+			{kind: 3, who: 0, lit: true, v1: 6, v2: 499000}, {kind: 1, lit: true, v1: 100}, {kind: 0, who: 1, class: 8, f1: 50, f2: 0}}},
+	// C10-F6, liveness half (fixed): debt 500 000, collateral 1 000 000; limit bids of 3 000 000 and 250 000 at discount 5:
+	// the first closes the auction, the second used to fail on the stale copy and roll the closure back on every block
+	// (Properties/C10.v:c10_fill_closing_first_regression); the second auction then takes the rest
+	{p: c10Params{premium: c10Dec("1.2"), disc: c10Dec("0.7"), ki: c10Dec("0.1"), vaultPenalty: c10Dec("0.12"), extPenalty: c10Dec("0.1"), extBonus: c10Dec("0.05"), dur: 3600, minUsd: 0, dc: 1000000, dd: 1000000},
+		kinds: [2]int{2, 2}, twaC0: 1000000, twaD: 1000000, collUnits: [2]int64{1000, 2000}, crCreate: [2]int64{200, 200}, dropTo: [2]int64{120, 120}, extRatio: [2]int64{50, 50}, reserveClass: 2,
+		plan: []c10PlanOp{{kind: 3, who: 0, lit: true, v1: 5, v2: 3000000}, {kind: 3, who: 1, lit: true, v1: 5, v2: 250000}, {kind: 1, lit: true, v1: 2550},
+			{kind: 1, lit: true, v1: 10}, {kind: 2}, {kind: 1, lit: true, v1: 2550}, {kind: 1, lit: true, v1: 50}}},
+	// vault auction liquidated through MsgLiquidateInternalKeeper, keeper incentive 10 %: a market bid, a limit bid filled
+	// partially, a closing market bid - the penalty 120 000 is split 12 000 keeper / 108 000 collector and the net-fee book
+	// grows by 108 000 (regression of seeded/C13-3: booking the gross penalty)
+	{p: c10Params{premium: c10Dec("1.2"), disc: c10Dec("0.7"), ki: c10Dec("0.1"), vaultPenalty: c10Dec("0.12"), extPenalty: c10Dec("0.1"), extBonus: c10Dec("0"), dur: 3600, minUsd: 100000, dc: 1000000, dd: 1000000},
+		kinds: [2]int{0, 0}, twaC0: 2000000, twaD: 1000000, collUnits: [2]int64{1000, 1500}, crCreate: [2]int64{200, 200}, dropTo: [2]int64{120, 125}, extRatio: [2]int64{50, 50}, reserveClass: 2,
+		plan: []c10PlanOp{{kind: 3, who: 1, lit: true, v1: 4, v2: 300000}, {kind: 0, who: 0, lit: true, v1: 400000}, {kind: 1, lit: true, v1: 2400},
+			{kind: 1, lit: true, v1: 20}, {kind: 0, who: 0, lit: true, v1: 9999999}, {kind: 2}, {kind: 0, who: 2, class: 8, f1: 50, f2: 0}, {kind: 0, who: 0, class: 8, f1: 50, f2: 0}}},
 }
 
 func TestC10(t *testing.T) {
@@ -354,6 +401,21 @@ func TestC10(t *testing.T) {
 		supply0 := supply(a, ctx, f.denomD)
 
 		tr.p("case %d %s %s %d %d %s %d %d", ci, p.premium.BigInt(), p.disc.BigInt(), p.dur, p.minUsd, p.ki.BigInt(), p.dc, p.dd)
+		// the order in which GetUserLimitBidDataByPremium lists the bidders: by the address string in the store key
+		border := []int{0, 1, 2}
+		sort.Slice(border, func(i, j int) bool { return bidders[border[i]].String() < bidders[border[j]].String() })
+		tr.p("order %d %d %d", border[0], border[1], border[2])
+		bidderIdx := map[string]int{}
+		for i, b := range bidders {
+			bidderIdx[b.String()] = i
+		}
+		type limKey struct {
+			prem int64
+			who  int
+		}
+		var limKeys []limKey
+		limSeen := map[limKey]bool{}
+		lastBidID := a.NewaucKeeper.GetUserBidID(ctx)
 
 		now := int64(0)
 		twaC, twaDcur := twaC0, twaD
@@ -380,11 +442,39 @@ func TestC10(t *testing.T) {
 			for _, b := range bidders {
 				fmt.Fprintf(&sb, " %s %s", bal(a, c, b, f.denomC), bal(a, c, b, f.denomD))
 			}
-			tr.p("L %s %s %s %s %s %s %s %s %s 0%s %s %s %s",
+			// the limit-bid pool of the market and the collector's net-fee book of (app, debt asset)
+			pd, pfound := a.NewaucKeeper.GetLimitBidProtocolDataByAssetID(c, f.assetD, f.assetC)
+			pool := sdk.ZeroInt()
+			if pfound {
+				pool = pd.BidValue
+			}
+			nfd, nffound := a.CollectorKeeper.GetNetFeeCollectedData(c, f.app, f.assetD)
+			nf := sdk.ZeroInt()
+			if nffound {
+				nf = nfd.NetFeesCollected
+			}
+			tr.p("L %s %s %s %s %s %s %s %s %s 0%s %s %s %s %s %s %s %s",
 				bal(a, c, modAddr(auctypes.ModuleName), f.denomC), bal(a, c, modAddr(auctypes.ModuleName), f.denomD), ownC,
 				bal(a, c, modAddr("collectorV1"), f.denomD), bal(a, c, liquidator, f.denomD), bal(a, c, initiator, f.denomD),
 				bal(a, c, null, f.denomD), bal(a, c, modAddr(liqtypes.ModuleName), f.denomD), supply0.Sub(supply(a, c, f.denomD)),
-				sb.String(), b2s(rfound), rsAmt, xfAmt)
+				sb.String(), b2s(rfound), rsAmt, xfAmt, b2s(pfound), pool, b2s(nffound), nf)
+			// the limit bids of the market (every key ever deposited to)
+			for _, k := range limKeys {
+				if rec, found := a.NewaucKeeper.GetUserLimitBidData(c, f.assetD, f.assetC, sdk.NewInt(k.prem), bidders[k.who].String()); found {
+					tr.p("R %d %d %s", k.prem, k.who, rec.DebtToken.Amount)
+				}
+			}
+			// the user bids created since the last observation (market bids and the automatic bids of fills)
+			for id := lastBidID + 1; id <= a.NewaucKeeper.GetUserBidID(c); id++ {
+				if ub, err := a.NewaucKeeper.GetUserBid(c, id); err == nil {
+					w, known := bidderIdx[ub.BidderAddress]
+					if !known {
+						w = 99
+					}
+					tr.p("U %d %d %d %s %s", id, ub.AuctionId, w, ub.DebtTokenAmount.Amount, ub.CollateralTokenAmount.Amount)
+				}
+			}
+			lastBidID = a.NewaucKeeper.GetUserBidID(c)
 			for _, au := range a.NewaucKeeper.GetAuctions(c) {
 				tr.p("A %d %s %s %s %s %s %s %s %d %d", au.AuctionId, au.CollateralToken.Amount, au.DebtToken.Amount, au.BonusAmount,
 					au.CollateralTokenAuctionPrice.BigInt(), au.CollateralTokenInitialPrice.BigInt(), au.CollateralTokenOraclePrice.BigInt(),
@@ -448,35 +538,68 @@ func TestC10(t *testing.T) {
 			case 1:
 				// time advances, prices may change, then the auctionsV2 BeginBlocker runs
 				var dt int64
-				switch o.dtClass {
-				case 0:
-					dt = 0
-				case 1:
-					dt = 1
-				case 2:
-					dt = 5
-				case 3:
-					dt = int64(p.dur) / 4
-				case 4:
-					dt = int64(p.dur) / 2
-				case 5, 6: // exactly to the end time of the oldest live auction (t = D), or one past it
-					aus := a.NewaucKeeper.GetAuctions(c)
-					if len(aus) > 0 {
-						dt = c10Unix(aus[0].EndTime) - now
-						if o.dtClass == 6 {
-							dt++
-						}
-						if dt < 0 {
-							dt = 0
-						}
-					}
-				case 7:
-					dt = 2*int64(p.dur) + 1
+				switch {
+				case o.lit:
+					dt = o.v1
 				default:
-					dt = int64(1 + o.f1%7)
+					switch o.dtClass {
+					case 0:
+						dt = 0
+					case 1:
+						dt = 1
+					case 2:
+						dt = 5
+					case 3:
+						dt = int64(p.dur) / 4
+					case 4:
+						dt = int64(p.dur) / 2
+					case 5, 6: // exactly to the end time of the oldest live auction (t = D), or one past it
+						aus := a.NewaucKeeper.GetAuctions(c)
+						if len(aus) > 0 {
+							dt = c10Unix(aus[0].EndTime) - now
+							if o.dtClass == 6 {
+								dt++
+							}
+							if dt < 0 {
+								dt = 0
+							}
+						}
+					case 7:
+						dt = 2*int64(p.dur) + 1
+					case 9, 10, 11, 12:
+						// the next instant at which a live auction's discount meets a limit bid, searched on throw-away
+						// contexts with the real price update; the oracle prices stay as they are for this tick
+						dt = int64(1 + o.f1%7)
+						aus := a.NewaucKeeper.GetAuctions(c)
+						if len(aus) > 0 && len(limKeys) > 0 {
+							step := int64(p.dur) / 120
+							if step < 1 {
+								step = 1
+							}
+							last := c10Unix(aus[0].EndTime)
+						search:
+							for t, n := now+1, 0; t <= last && n < 130; t, n = t+step, n+1 {
+								cc, _ := c10At(ctx, t).CacheContext()
+								if pn, _ := safely(func() { _ = a.NewaucKeeper.AuctionIterator(cc) }); pn {
+									continue
+								}
+								for _, au := range a.NewaucKeeper.GetAuctions(cc) {
+									if pr, ok := c10Discount(au); ok {
+										if _, found := a.NewaucKeeper.GetUserLimitBidDataByPremium(cc, f.assetD, f.assetC, pr); found {
+											dt = t - now
+											break search
+										}
+									}
+								}
+							}
+						}
+					default:
+						dt = int64(1 + o.f1%7)
+					}
 				}
 				now += dt
 				switch {
+				case o.lit || (o.dtClass >= 9 && o.dtClass <= 12):
 				case o.priceClass == 0:
 					actC = !actC
 				case o.priceClass == 1:
@@ -497,12 +620,95 @@ func TestC10(t *testing.T) {
 				c = c10At(ctx, now)
 				setPrice(a, c, f.assetC, twaC, actC)
 				setPrice(a, c, f.assetD, twaDcur, actD)
+				// the prices this block posts, read off a throw-away run of the price update alone (the fills of
+				// the block happen at these prices; a closed auction's record is gone afterwards)
+				var posted []auctypes.Auction
+				{
+					cc, _ := c.CacheContext()
+					safely(func() { _ = a.NewaucKeeper.AuctionIterator(cc) })
+					posted = a.NewaucKeeper.GetAuctions(cc)
+				}
 				pn, _ := safely(func() { auctionsV2.BeginBlocker(c, a.NewaucKeeper) })
 				class := "ok"
 				if pn {
 					class = "panic"
 				}
 				tr.p("op tick %d %s %d %s %d %s", now, b2s(actC), twaC, b2s(actD), twaDcur, class)
+				for _, au := range posted {
+					tr.p("P %d %s %s", au.AuctionId, au.CollateralTokenAuctionPrice.BigInt(), au.CollateralTokenOraclePrice.BigInt())
+				}
+				observe()
+			case 3:
+				// a limit bid of the market through MsgDepositLimitBid
+				aus := a.NewaucKeeper.GetAuctions(c)
+				remaining := sdk.NewInt(1000000)
+				cur := int64(5)
+				if len(aus) > 0 {
+					au := aus[o.f2%len(aus)]
+					remaining = au.DebtToken.Amount
+					cur = 0
+					if pr, ok := c10Discount(au); ok {
+						cur = pr.Int64()
+					}
+				}
+				var prem int64
+				switch o.class {
+				case 0, 1, 2: // a little above the current discount: met by a later block
+					prem = cur + int64(1+o.f2%3)
+				case 3, 4:
+					prem = int64(o.f2 % 17)
+				case 5:
+					prem = cur // met by the next block if the discount is still the same whole percent
+				case 6:
+					prem = cur + int64(o.f1%9)
+				default:
+					prem = 31 // above MaxPremiumDiscount
+				}
+				var amt sdk.Int
+				denom := f.denomD
+				switch o.f1 % 10 {
+				case 0:
+					amt = sdk.NewInt(1)
+				case 1:
+					amt = sdk.NewInt(int64(o.f2))
+				case 2, 3:
+					amt = remaining.MulRaw(int64(o.f1)).QuoRaw(100)
+				case 4:
+					amt = remaining
+				case 5:
+					amt = remaining.AddRaw(1)
+				case 6:
+					amt = remaining.MulRaw(3)
+				case 7:
+					amt = remaining.SubRaw(1)
+				case 8:
+					amt = remaining.MulRaw(int64(o.f1)).QuoRaw(300)
+				default:
+					amt = remaining.QuoRaw(2)
+					if o.f2%3 == 0 {
+						denom = f.denomC
+					} else if o.f2%3 == 1 {
+						amt = sdk.ZeroInt()
+					}
+				}
+				if amt.IsNegative() {
+					amt = sdk.NewInt(1)
+				}
+				if o.lit {
+					prem, amt, denom = o.v1, sdk.NewInt(o.v2), f.denomD
+				}
+				k := limKey{prem, o.who}
+				if !limSeen[k] && prem >= 0 {
+					limSeen[k] = true
+					limKeys = append(limKeys, k)
+				}
+				msg := &auctypes.MsgDepositLimitBidRequest{CollateralTokenId: f.assetC, DebtTokenId: f.assetD, PremiumDiscount: sdk.NewInt(prem),
+					Bidder: bidders[o.who].String(), Amount: sdk.Coin{Denom: denom, Amount: amt}}
+				class, derr, _ := execMsg(a, c, msg)
+				if debug && derr != nil {
+					tr.p("# %s", strings.ReplaceAll(derr.Error(), "\n", " "))
+				}
+				tr.p("op dep %d %d %s %s %s", o.who, prem, amt, b2s(denom != f.denomD), class)
 				observe()
 			case 0:
 				aus := a.NewaucKeeper.GetAuctions(c)
@@ -545,6 +751,9 @@ func TestC10(t *testing.T) {
 				}
 				if amt.IsNegative() {
 					amt = sdk.NewInt(1)
+				}
+				if o.lit {
+					amt, denom = sdk.NewInt(o.v1), f.denomD
 				}
 				msg := &auctypes.MsgPlaceMarketBidRequest{AuctionId: aid, Bidder: bidders[o.who].String(), Amount: sdk.Coin{Denom: denom, Amount: amt}}
 				class, berr, _ := execMsg(a, c, msg)
